@@ -58,7 +58,7 @@ def families(quick):
     }
 
 
-# families over the extended vocabulary: generated exhaustively like the others, replayed on a sample (110 quick / 1500 thorough per family)
+# families over the extended vocabulary: generated exhaustively like the others, replayed on a sample (110 quick / 800 thorough per family)
 EXTENDED = ('cxparts', 'cxpow', 'cxstruct', 'cxlin', 'einsum', 'poly', 'polycount', 'search', 'dyn', 'arglen', 'monomial', 'inflate3', 'uvc')
 
 
@@ -253,7 +253,7 @@ def run(rep):
     for n, fp in zip(names, per):
         rep.constants['family:' + n] = len(fp)
         if n in EXTENDED:
-            sel += exprs.select(fp, 110 if quick else 1500, rngx)
+            sel += exprs.select(fp, 110 if quick else 800, rngx)
         else:
             sel += [q for q in fp if not dag.unstable(q)] if quick else exprs.select(fp, 8000, rng)
     nexh = len(sel)
@@ -264,7 +264,7 @@ def run(rep):
     simx = [p for p in simx if any(mark(p) for mark in exprs.EXT_MARK.values())]
     lap('generated')
     sel += exprs.select(sims, 300 if quick else 6000, rng, need_arg=True)
-    sel += exprs.select(simx, 120 if quick else 3000, rngx, need_arg=True)
+    sel += exprs.select(simx, 120 if quick else 2000, rngx, need_arg=True)
     # witnesses of recorded findings are always replayed (deterministic KNOWN-FINDING lines; a fixed one must pass)
     from ..report import load_known
     for kf in load_known():
@@ -334,6 +334,10 @@ def run(rep):
             rep.skip('original program does not compile unsimplified (judged by C02)')
         elif st == 'compile-timeout':
             rep.skip('compiling the simplified form exceeded the watchdog (not judged)')
+        elif st == 'exception' and o.get('defined', 0) == 0:
+            # the program violates a constructor's contract at every environment (e.g. InRange of an index that is certainly
+            # out of range: the model value is undefined everywhere); an assertion tripping over it is not judged
+            rep.skip('simplification raised on a program whose model value is undefined at all environments')
         elif st in ('nonterm', 'exception'):
             # confirm in this (serial) process with a three times larger budget: a watchdog that fired in a starved worker
             # of an overloaded machine must not become a verdict
